@@ -30,24 +30,19 @@ fn structural_eq(a: &Value, b: &Value) -> bool {
     }
 }
 
-/// Known finding (C09/C15 `panic:...tokens.rs:105`): a `\uXXXX` escape naming a UTF-16 surrogate panics.
-/// Inputs that contain one are skipped so that the campaign can look for *other* defects.
-fn has_surrogate_escape(text: &str) -> bool {
-    let b = text.as_bytes();
-    let mut i = 0;
-    while i + 1 < b.len() {
-        if b[i] == b'\\' && b[i + 1] == b'u' {
-            let mut j = i + 1;
-            while j < b.len() && b[j] == b'u' {
-                j += 1;
-            }
-            if j + 1 < b.len() && (b[j] == b'd' || b[j] == b'D') && matches!(b[j + 1], b'8' | b'9' | b'a'..=b'f' | b'A'..=b'F') {
-                return true;
-            }
-            i = j;
-        } else {
-            i += 1;
+/// OPEN finding C09 `{value-roundtrip,cycle-undefined}:nonfinite-float`: an infinite / NaN float has no
+/// parseable spelling. Used only to exempt the print -> parse law of `recon_parse` for such a value.
+#[allow(dead_code)]
+fn has_nonfinite_float(v: &Value) -> bool {
+    match v {
+        Value::Float64Value(x) => !x.is_finite(),
+        Value::Record(a, i) => {
+            a.iter().any(|a| has_nonfinite_float(&a.value))
+                || i.iter().any(|i| match i {
+                    Item::ValueItem(v) => has_nonfinite_float(v),
+                    Item::Slot(k, v) => has_nonfinite_float(k) || has_nonfinite_float(v),
+                })
         }
+        _ => false,
     }
-    false
 }
